@@ -484,7 +484,8 @@ def standard_check(ctx, coq_dirs, properties, harnesses, trusted, design_ref, ch
         key = (h["pkg"], h.get("go", "go"), h.get("race", False))
         if key not in built:
             built[key] = go_build(ctx, h["pkg"], go=h.get("go", "go"), race=h.get("race", False), tags=h.get("tags", "verif"))
-        run_harness(ctx, built[key], h["sub"], args=h.get("args"), coq=h.get("coq", True), timeout=h.get("timeout", 1800), env=h.get("env"))
+        run_harness(ctx, built[key], h["sub"], args=h.get("args"), coq=h.get("coq", True), timeout=h.get("timeout", 1800), env=h.get("env"),
+                    kinds=h.get("kinds"))
     if ctx.tier == "thorough" and chk_modules:
         coqchk(ctx, chk_modules)
     cmd = "make -C coq (full .vo build) && coqc %s (Print Assumptions per theorem); go build harness/cmd/{%s} against /repo working tree; " \
